@@ -170,7 +170,7 @@ def load_module(b):
         return QModule.parse(b)
 
 
-def run_module(module, script=None, budget=200000, on_tick=None):
+def run_module(module, script=None, budget=200000, on_tick=None, observer=None):
     """Runs by ticking the CPU ourselves.  Returns (recorder, outcome) where
     outcome = {'how': 'halt'|'eoc'|'trap'|'budget'|'script'|'host-exception', ...}."""
     rec = Recorder(script)
@@ -192,7 +192,15 @@ def run_module(module, script=None, budget=200000, on_tick=None):
                     break
                 if on_tick is not None:
                     on_tick(cpu, n)
-                cpu.tick()
+                if observer is not None:
+                    ins = cpu.get_instruction_at(cpu.pc)
+                    observer.before(cpu, ins[0], ins[1], rec)
+                    try:
+                        cpu.tick()
+                    finally:
+                        observer.after(cpu, ins[0], ins[1], rec)
+                else:
+                    cpu.tick()
                 n += 1
         except ScriptExhausted:
             out = {'how': 'script'}
@@ -229,7 +237,7 @@ def texts(events):
     return ''.join(e[1] for e in events if e[0] == 'terminal_print')
 
 
-def compile_and_run(text, O=0, g=False, script=None, budget=200000):
+def compile_and_run(text, O=0, g=False, script=None, budget=200000, observer=None):
     c = compile_text(text, O, g)
     if c['st'] != 'ok':
         return c, None, None
@@ -239,5 +247,5 @@ def compile_and_run(text, O=0, g=False, script=None, budget=200000):
         c = dict(c)
         c.update(st='crash', type=type(e).__name__, where=where_of(e), stage='load')
         return c, None, None
-    rec, out, cpu = run_module(mod, script, budget)
+    rec, out, cpu = run_module(mod, script, budget, observer=observer)
     return c, rec, out
